@@ -1,6 +1,7 @@
 package symex
 
 import (
+	"path"
 	"fmt"
 	"go/types"
 	"math/big"
@@ -549,6 +550,27 @@ func init() {
 		"strings.Index": func(in *Interp, st *State, fr *Frame, fn *ssa.Function, args []Value) Value {
 			return IntC(int64(strings.Index(mustStr(args[0], "strings.Index"), mustStr(args[1], "strings.Index"))))
 		},
+		"path.Join": func(in *Interp, st *State, fr *Frame, fn *ssa.Function, args []Value) Value {
+			sl := args[0].(SliceV)
+			n := in.concretize(st, sl.Len, 0, 64)
+			parts := make([]string, n)
+			var fargs []Value
+			opaque := false
+			for i := range parts {
+				sv := in.sliceElem(st, sl, int64(i)).(StrV)
+				if sv.Fmt != nil {
+					opaque = true
+					parts[i] = sv.Fmt.Format
+					fargs = append(fargs, sv.Fmt.Args...)
+					continue
+				}
+				parts[i] = mustStr(sv, "path.Join")
+			}
+			if opaque {
+				return StrV{Fmt: &OpaqueFmt{Format: path.Join(parts...), Args: fargs}}
+			}
+			return StrV{S: path.Join(parts...)}
+		},
 		"path.Ext": func(in *Interp, st *State, fr *Frame, fn *ssa.Function, args []Value) Value {
 			if sv, ok := args[0].(StrV); ok && sv.Fmt != nil {
 				// extension of a formatted name is that of its format when no verb follows the last dot
@@ -649,7 +671,19 @@ func init() {
 		},
 		"strings.ContainsAny": s2(func(a, b string) Value { return BoolC(strings.ContainsAny(a, b)) }),
 		"strings.ReplaceAll": func(in *Interp, st *State, fr *Frame, fn *ssa.Function, args []Value) Value {
-			return StrV{S: strings.ReplaceAll(mustStr(args[0], "ReplaceAll"), mustStr(args[1], "ReplaceAll"), mustStr(args[2], "ReplaceAll"))}
+			if sv, ok := args[0].(StrV); ok && sv.Fmt != nil {
+				// an already opaque string stays opaque (its content is never inspected)
+				return sv
+			}
+			src, old := mustStr(args[0], "ReplaceAll"), mustStr(args[1], "ReplaceAll")
+			if rv, ok := args[2].(StrV); ok && rv.Fmt != nil {
+				if !strings.Contains(src, old) {
+					return StrV{S: src}
+				}
+				// pattern instantiated with a non-concrete number: opaque formatted name
+				return StrV{Fmt: &OpaqueFmt{Format: strings.ReplaceAll(src, old, "%v"), Args: rv.Fmt.Args}}
+			}
+			return StrV{S: strings.ReplaceAll(src, old, mustStr(args[2], "ReplaceAll"))}
 		},
 		"strings.Repeat": func(in *Interp, st *State, fr *Frame, fn *ssa.Function, args []Value) Value {
 			return StrV{S: strings.Repeat(mustStr(args[0], "Repeat"), int(constI64(args[1], "Repeat")))}
